@@ -813,10 +813,22 @@ func c17Regain(tier string, seed int64, idx int, scratch string) rt.CaseResult {
 	for cycle := 0; cycle < cycles; cycle++ {
 		// a file from Create that stays open (nothing written yet) while the directories fill up
 		// and rotate; it is written and closed after the fill
+		filesBefore, _, _ := r.Env.Walk(false)
 		held, herr := r.Env.DB.Create(ctxBg, fmt.Sprintf("held%d", cycle))
 		if herr != nil {
 			c.Violate("create-failed role=regain", herr.Error(), replay)
 			return c
+		}
+		// Create returns before its storing side has chosen a directory and made the entry; until
+		// then the open file is an operation running concurrently with whatever is called next,
+		// and the bound is only promised for operations issued one at a time. So wait until the
+		// entry is there (at most two seconds; an implementation that makes it later is judged by
+		// what the directories look like when it finally does)
+		for w := 0; w < 400; w++ {
+			if fs, _, _ := r.Env.Walk(false); len(fs) > len(filesBefore) {
+				break
+			}
+			time.Sleep(5 * time.Millisecond)
 		}
 		// fill: write until every existing directory is full and a fresh one has been started
 		for round := 0; round < 40; round++ {
